@@ -13,11 +13,13 @@ PROP = "C12"
 RULE = ("(1) small scope: n=4..5 rows, every target vector with both classes x rank patterns of 2 score columns x "
         "shuffle on/off x order-independent/order-dependent estimator x max_iter 1..3; (2) random: n<=60 (quick) / 300 "
         "(thorough) rows, 1..4 candidate score columns with ties, extra feature columns, start = best feature / direction "
-        "/ pretrained, estimators with decision_function / 2-column predict_proba / 1-column predict_proba, max_iter "
-        "0..10, train_fdr in {0.01..1.0}, override, shuffle, seeds; second table with permuted rows and permuted / wrong "
-        "feature columns; (3) edge stream: no targets, no decoys, unknown direction, nothing passes, single-row tables, "
-        "max_iter=0; (4) save_model/load_model round trip on a third of the cases. distinct = distinct case; "
-        "non-trivial = at least two calls of estimator.fit or an error exit")
+        "/ pretrained (stored feature order = or != table order), estimators with decision_function / 2-column predict_proba "
+        "/ 1-column predict_proba, max_iter 1..10, train_fdr in {0.01..1.0}, override, shuffle, seeds; second table with "
+        "permuted / repeated rows and permuted / wrong feature columns; separable and rising/declining runs (labels and "
+        "fitted state change between iterations, both 'performs worse' exits); (3) edge stream: no targets, no decoys, "
+        "unknown direction, nothing passes, single-row tables, two-row tables, max_iter=0; (4) Model.predict alone: stored "
+        "names vs table names, untrained model; (5) save_model/load_model round trip on a third of the cases. "
+        "distinct = distinct case; non-trivial = at least two calls of estimator.fit or an error exit")
 ASSUMPTIONS = [
     "feature values are integers stored as float64; scores handed to the model are those integers (order and ties exact)",
     "train_fdr is a decimal literal: the model gets the exact decimal, the implementation float(decimal)",
@@ -187,14 +189,15 @@ def _layout(rng, kk, nextra):
 
 
 def _case(names, cols, targets, idc, sc0, kk, *, lk=0, skind=0, mode=0, dir_="", g0=0, seed=1, shuffle=True,
-          thr="0.5", max_iter=2, override=False, prow=None, pnames=None, enforce=True, pickle_=False, tags=()):
+          thr="0.5", max_iter=2, override=False, prow=None, pnames=None, enforce=True, pickle_=False, pre_names=None,
+          tags=()):
     n = len(targets)
     return {"fn": "fit", "names": list(names), "cols": [list(c) for c in cols], "targets": [int(bool(t)) for t in targets],
             "lk": lk, "idc": idc, "sc0": sc0, "kk": kk, "skind": skind, "mode": mode, "dir": dir_, "g0": g0,
             "seed": seed, "shuffle": bool(shuffle), "thr": thr, "max_iter": max_iter, "override": bool(override),
             "prow": list(range(n)) if prow is None else list(prow),
             "pnames": list(names) if pnames is None else list(pnames),
-            "enforce": bool(enforce), "pickle": bool(pickle_), "tags": list(tags)}
+            "enforce": bool(enforce), "pickle": bool(pickle_), "pre_names": pre_names, "tags": list(tags)}
 
 
 def _random_case(rng, nmax, tags, force=None):
@@ -219,13 +222,15 @@ def _random_case(rng, nmax, tags, force=None):
     for nm in names:
         if nm == "id":
             continue
-        quality = rng.choice([0.0, 0.5, 1.0, 1.0, 2.0, -1.0])
+        # informative columns put most targets above the decoys; ties through the small number of levels
+        p_hi = rng.choice([0.0, 0.3, 0.6, 0.8, 0.95, 0.95])
+        flip = rng.random() < 0.15            # lower is better
         col = []
         for t in targets:
             base = rng.randrange(levels)
-            if t and rng.random() < 0.8:
-                base += int(quality * levels * rng.random())
-            col.append(base)
+            if t and rng.random() < p_hi:
+                base += levels + rng.randrange(levels)
+            col.append(-base if flip else base)
         byname[nm] = col
     cols = [byname[nm] for nm in names]
     mode = force.get("mode", rng.choice([0, 0, 1, 1, 2]))
@@ -251,10 +256,14 @@ def _random_case(rng, nmax, tags, force=None):
         pnames.insert(rng.randrange(len(pnames) + 1), "zz")
     elif r < 0.92:
         pnames[rng.randrange(len(pnames))] = "zz"
-    return _case(names, cols, targets, idc, sc0, kk,
+    pre_names = None
+    if mode == 2 and rng.random() < 0.5:
+        pre_names = list(names)
+        rng.shuffle(pre_names)
+    return _case(names, cols, targets, idc, sc0, kk, pre_names=pre_names,
                  lk=force.get("lk", rng.choice([0, 0, 1, 1, 2])), skind=skind, mode=mode, dir_=dir_,
                  g0=rng.randrange(kk), seed=rng.randrange(10 ** 6), shuffle=force.get("shuffle", rng.random() < 0.5),
-                 thr=force.get("thr", rng.choice(THRS)), max_iter=force.get("max_iter", rng.choice([1, 1, 2, 2, 3, 3, 4, 5, 7, 10])),
+                 thr=force.get("thr", rng.choice(THRS if n >= 25 else THRS[3:])), max_iter=force.get("max_iter", rng.choice([1, 1, 2, 2, 3, 3, 4, 5, 7, 10])),
                  override=rng.random() < 0.5, prow=prow, pnames=pnames, pickle_=rng.random() < 0.33, tags=tags)
 
 
@@ -291,14 +300,37 @@ def gen(ctx):
             c["tags"].append("columns-permuted")
         if c["pickle"]:
             c["tags"].append("pickle")
+        if c["pre_names"]:
+            c["tags"].append("pretrained-other-stored-order")
         cases.append(c)
     # separable data: long runs (several iterations, labels changing)
     rng = ctx.sub("separable")
     for k in range(600 if ctx.thorough else 150):
         c = _random_case(rng, rng.choice([20, 60]), (), force={"thr": rng.choice(["0.1", "0.2", "0.25", "0.3", "0.5"]),
                                                                  "max_iter": rng.randint(2, 10)})
-        c["override"] = True
-        c["tags"] = ["separable", "shuffle" if c["shuffle"] else "no-shuffle"]
+        c["override"] = k % 3 == 0
+        c["tags"] = ["separable", "shuffle" if c["shuffle"] else "no-shuffle", "override" if c["override"] else "no-override"]
+        cases.append(c)
+    # runs whose number of accepted targets goes up and down around the starting count (the two
+    # "performs worse" exits): score column c0 separates well, c1 badly, the direction feature e0 in between
+    rng = ctx.sub("decline")
+    for k in range(600 if ctx.thorough else 160):
+        n = rng.randint(12, 40)
+        names, idc, sc0 = _layout(rng, 2, 1)
+        targets = [1 if rng.random() < 0.65 else 0 for _ in range(n)]
+        targets[0], targets[1] = 1, 0
+        ids = list(range(n))
+        rng.shuffle(ids)
+        hi = {"c0": 0.9, "c1": rng.choice([0.15, 0.3]), "e0": rng.choice([0.4, 0.6])}
+        if rng.random() < 0.5:
+            hi["c0"], hi["c1"] = hi["c1"], hi["c0"]
+        byname = {"id": ids}
+        for nm in ("c0", "c1", "e0"):
+            byname[nm] = [(20 + rng.randrange(20)) if (t and rng.random() < hi[nm]) else rng.randrange(10) for t in targets]
+        c = _case(names, [byname[nm] for nm in names], targets, idc, sc0, 2, lk=rng.choice([0, 1]), skind=rng.choice([0, 0, 1, 2]),
+                  mode=rng.choice([0, 1, 1]), dir_="e0", seed=rng.randrange(10 ** 6), shuffle=rng.random() < 0.5,
+                  thr=rng.choice(["0.1", "0.2", "0.3"]), max_iter=rng.randint(2, 5), override=rng.random() < 0.3)
+        c["tags"] = ["decline", "shuffle" if c["shuffle"] else "no-shuffle"]
         cases.append(c)
     # (3) edge stream
     rng = ctx.sub("edge")
@@ -411,7 +443,7 @@ def _run_fit(c):
                   rng=c["seed"])
         if c["mode"] == 2:       # a trained model, set up as load_model does for Percolator weights
             m.estimator.g_ = c["g0"]
-            m.features = list(names)
+            m.features = list(c.get("pre_names") or names)
             m.is_trained = True
         r = call_impl(m.fit, ds)
         trace = [[[i, {0.0: False, 1.0: True}.get(y, y)] for i, y in call] for call in LOGS[key]]
@@ -460,12 +492,6 @@ def nontrivial(c):
 
 
 # ----------------------------------------------------------------------------- the property itself
-def _start_labels_spec(c, thr):
-    """positives at iteration 0 as the property text defines them, where that is possible without
-    re-stating the selection rule: any feature / direction whose accepted targets are handed"""
-    return None
-
-
 def oracle(c, i):
     """C12 on the implementation's output: (a) every (row id, label) handed to estimator.fit is a row of the
     table with its own label: negatives exactly the decoys, positives exactly the targets with q <= train_fdr
@@ -473,7 +499,7 @@ def oracle(c, i):
     and the predictions do not change when rows are permuted, the seed changes or shuffle is toggled;
     (c) prediction on permuted feature columns = prediction, wrong feature set -> ValueError."""
     if c["fn"] == "predict":
-        if not c["trained"] or c["n"] == 1 and c["skind"] != 0:
+        if not c["trained"]:
             return None
         if set(c["names"]) != set(c["stored"]):
             return None if i == ("err", "ValueError") else f"feature set differs from the stored one but predict gave {i!r}"
@@ -516,16 +542,22 @@ def oracle(c, i):
         prev_scores = c["cols"][c["sc0"] + g]
     if res[0] == "ok":
         g, fp, desc, best, p1, p2 = res[1]
-        if p1[0] == "ok" and n != 1 and p1[1] != list(c["cols"][c["sc0"] + g]):
+        if p1 != ("ok", list(c["cols"][c["sc0"] + g])):
             return "prediction on the training table is not the score column chosen by the fitted estimator"
         if set(c["pnames"]) != set(c["names"]):
             if p2 != ("err", "ValueError"):
                 return f"prediction table has another feature set but predict gave {p2!r}"
-        elif len(c["prow"]) != 1 or c["skind"] == 0:
+        else:
             exp = [c["cols"][c["sc0"] + g][r] for r in c["prow"]]
             if p2 != ("ok", exp):
                 return (f"prediction on permuted rows/feature columns {p2!r} differs from the prediction of the same rows "
                         f"in training layout {exp}")
+    # (d) decision_function or predict_proba: the scoring method the estimator offers does not matter
+    if c["skind"] != 0 and not c.get("_variant"):
+        j = _run_fit(dict(c, skind=0, _variant=True, pickle=False))
+        if lib.jsonable(j) != lib.jsonable([trace, res]):
+            return (f"an estimator offering only predict_proba ({'two columns' if c['skind'] == 1 else 'one column'}) gives "
+                    f"{res!r}, the same estimator with decision_function gives {j[1]!r}")
     # (b) order invariance, order-independent estimators only
     if c["lk"] != 1 and c["mode"] != 2 and not c.get("_variant"):
         import random
